@@ -124,11 +124,11 @@ def dict_poly(ctx):
 
     from xsdata.formats.dataclass.context import XmlContext
 
-    from ..poly_models import DOCS as docs
-    from ..poly_models import PRoot as root
+    from ..poly_models import DOCS, ENV_DOCS, EnvHolder, PRoot
     xctx = XmlContext()
     n = 0
-    for data in docs:
+    envelopes = (xctx.class_type.derived_keys, xctx.class_type.any_keys)
+    for data, root in [(d, PRoot) for d in DOCS] + [(d, EnvHolder) for d in ENV_DOCS]:
         base = DictDecoder(context=xctx).decode(data, root)
         for up, ua, cw in itertools.product((False, True), repeat=3):
             dec = DictDecoder(context=xctx, config=ParserConfig(fail_on_unknown_properties=up, fail_on_unknown_attributes=ua, fail_on_converter_warnings=cw))
@@ -138,6 +138,11 @@ def dict_poly(ctx):
                     node = bad
                     for k in path:
                         node = node[k]
+                    # an ENVELOPE object ({qname, value, type} / the generic element) is recognised by its exact key set: with an
+                    # extra key it is no envelope any more, so only the strict half of the property applies there
+                    envelope = node.keys() in envelopes
+                    if (envelope and not up) or (path and path[-1] == "attributes"):      # (the attribute MAP of a generic element takes any key)
+                        continue
                     node["zz_unknown"] = shape
                     n += 1
                     ctx.case(("dict-poly", json.dumps(data), str(path), up, ua, cw, str(shape)))
